@@ -344,4 +344,32 @@ def strategy(tier):
     return cases()
 
 
-SUBS = [Sub("selection", strategy, check_case, quick=200, thorough=1200)]
+@st.composite
+def edge_grid_without_edge_nodes(draw):
+    """Meshes whose edge grid exists without an edge-node table (declared edge dimension, or
+    implied by an edge-face table alone), with edge coordinates and data on the edges: selections
+    by edge index there."""
+    case = draw(cases())
+    spec = draw(S.dataset_spec(convs=["ugrid"], max_vars=3, min_vars=1, max_extra=1,
+                               modes=("raw", "decoded")))
+    supply = draw(st.sampled_from([[], ["face_face"], ["edge_face"], ["edge_face", "face_face"]]))
+    enc = draw(S.ugrid_encoding(supply=supply, require_edge_node=False))
+    enc["edge_dim_attr"] = True if "edge_face" not in supply else draw(st.booleans())
+    enc["edge_coords"] = True
+    g = spec["geom"]
+    if g.get("enc", {}).get("pad_columns"):
+        enc["pad_columns"] = g["enc"]["pad_columns"]
+    # (two-column tables cannot describe overlapping faces; abstract_mesh only makes them on request)
+    g["enc"] = enc
+    g["edges"] = specs.mesh_edges(g["faces"])
+    spec.pop("dim_coords", None)
+    spec["vars"] = [v for v in spec["vars"] if v["kind"] != "edge"] + [
+        {"name": "on_edges", "kind": "edge", "dims": ["@0"] + list(spec["extra"])[:1],
+         "dtype": "f8", "fill": None}]
+    case["spec"] = spec
+    return case
+
+
+SUBS = [Sub("selection", strategy, check_case, quick=200, thorough=1200),
+        Sub("edge_grid_without_edge_nodes", lambda tier: edge_grid_without_edge_nodes(), check_case,
+            quick=25, thorough=150)]
